@@ -15,11 +15,16 @@ func fvFromHex(s string) *secp.FieldVal {
 	return &f
 }
 
+// fvHex prints the value of f; a result that is not normalised (limbs outside their canonical range or
+// value >= p) is reported as such: results of exported point operations must be normalised.
 func fvHex(f *secp.FieldVal) string {
 	var c secp.FieldVal
 	c.Set(f)
 	c.Normalize()
 	b := c.Bytes()
+	if secp.VerifFieldRaw(f) != secp.VerifFieldRaw(&c) {
+		return "DENORMALISED:" + hx(b[:])
+	}
 	return hx(b[:])
 }
 
